@@ -186,9 +186,34 @@ def render_stmt(s, ind, prog, out):
             render_stmt(x, ind + 1, prog, out)
 
 
-def render(prog):
+# comments (since /repo 3df520b "comments never change the block structure the parser sees" they are inside the guard):
+# a trailing comment on the main-loop header, and comment-only lines at any column between any two lines of the script
+COMMENT_TEXTS = ["# forever", "# main loop", "#x", "# loop: \"forever\" 'q'", "# while True:", "# if flag:", "# break",
+                 "#", "# else:", "# def f():", "# mon.write(\"m0\")"]
+COMMENT_COLS = [0, 0, 0, 1, 2, 4, 4, 6, 8, 8, 12, 16]
+
+
+def decorate(lines, rng, stats=None):
+    """lines of a rendered script (after the import header) -> the same script with comments; Python ignores all of them"""
+    out = []
+    n_head = n_line = 0
+    for ln in lines:
+        if ln == "while True:" and rng.random() < 0.7:
+            ln = "while True:" + rng.choice(["  ", " ", "", "   "]) + rng.choice(COMMENT_TEXTS)
+            n_head += 1
+        if rng.random() < 0.12:
+            out.append(" " * rng.choice(COMMENT_COLS) + rng.choice(COMMENT_TEXTS))     # also BEFORE the first statement of a block
+            n_line += 1
+        out.append(ln)
+        if rng.random() < 0.12:
+            out.append(" " * rng.choice(COMMENT_COLS) + rng.choice(COMMENT_TEXTS))
+            n_line += 1
+    return out, n_head, n_line
+
+
+def render(prog, rng=None):
     prog["_uid"] = 0
-    out = [HEADER.rstrip("\n")]
+    out = []
     for it in prog["items"]:
         if it[0] == "stmt":
             render_stmt(it[1], 0, prog, out)
@@ -200,7 +225,11 @@ def render(prog):
             out.append(f"def {it[1]}():")
             for x in it[2]:
                 render_stmt(x, 1, prog, out)
-    return "\n".join(out) + "\n"
+    prog["comments"] = (0, 0)
+    if rng is not None and rng.random() < 0.5:
+        out, n_head, n_line = decorate(out, rng)
+        prog["comments"] = (n_head, n_line)
+    return "\n".join([HEADER.rstrip("\n")] + out) + "\n"
 
 
 def walk_stmts(stmts):
@@ -666,7 +695,7 @@ def gen_program(rng, cls, force=None):
     prog = {"items": items, "marks": b.marks, "inputs": b.inputs, "lcd_user_row": b.lcd_user_row,
             "lcd_anim_rows": b.lcd_anim_rows, "lcd_order": lcd_order, "devs": b.devs, "cls": cls,
             "sentinels": sentinels, "starts": starts}
-    prog["src"] = render(prog)
+    prog["src"] = render(prog, rng)
     return prog
 
 
@@ -1310,15 +1339,61 @@ def hk_prefix_clean(t, prog):
 
 
 def load_findings(ctx):
-    """the merged list (known_findings.json) plus this work package's own file until it is merged"""
+    """-> (open findings, fixed entries).  known_findings.d/C05.json (this work package's own file) takes precedence over
+    the merged known_findings.json, which ./check manifest assembles from it"""
     import json
     items = {f["id"]: f for f in ctx.findings}
     own = C.VERIF / "known_findings.d" / "C05.json"
     if own.exists():
         for e in json.loads(own.read_text()):
             if e.get("property") == "C05":
-                items.setdefault(e["id"], e)
-    return list(items.values())
+                items[e["id"]] = e
+    return ([f for f in items.values() if f.get("kind") != "fixed"], [f for f in items.values() if f.get("kind") == "fixed"])
+
+
+def lexical_witness_failure(w):
+    """The witness of a defect of the lexical layer (not in the Gallina model) on the real code.  Decided first on the real
+    parse() result - never on wall-clock time: the statements of the `while True:` body must be the user nodes of loop_body
+    and must not be in setup_body - and, only when that holds (so setup() returns), on the firmware's markers / values
+    against CPython's for N = 0..3.  -> None when the property holds on the witness, else (what, expected, observed)"""
+    marks = {int(k): v for k, v in w.get("marks", {}).items()}
+    r = C.run_impl("c05_impl.py", {"sources": [w["src"]], "timeout": 20}, timeout=80)[0]
+    if not r["ok"]:
+        return ("parse()/emit() rejected the script", "accepted", r.get("exc"))
+    head, tail = w["src"].split("while True", 1)
+    body_marks = sorted(i for i in marks if f'"m{i}"' in tail)
+    pre_marks = sorted(i for i in marks if f'"m{i}"' in head)
+    dummy = {"devs": {}, "marks": marks}
+    in_loop = [n[1] for n in canon_real_ir(r["loop"], dummy) if n[0] == "m"]
+    in_setup = [n[1] for n in canon_real_ir(r["setup"], dummy) if n[0] == "m"]
+    if in_loop != body_marks or in_setup != pre_marks:
+        return ("the body of the main loop is not what parse() puts into loop_body (or the prologue not what it puts into setup_body)",
+                {"setup_body": pre_marks, "loop_body": body_marks}, {"setup_body": in_setup, "loop_body": in_loop})
+    o = fw.run_sketches([{"cpp": r["cpp"], "input": "", "loops": NMAX}])[0]
+    if not o["compiled"] or o["rc"] != 0:
+        return ("the firmware did not compile / run to the end of pass %d" % NMAX, "rc 0", (o["compile_log"] or o["stderr"] or str(o["rc"]))[-400:])
+    po = fw.pyrun_many([{"src": w["src"], "input": "", "loops": NMAX}])[0]
+    if po["exc"] is not None:
+        return ("CPython raised on the witness", None, po["exc"])
+    f_obs, p_obs = _generic_obs(o["events"], False), _generic_obs(po["events"], True)
+    if f_obs != p_obs:
+        return ("firmware and CPython differ on the markers of the witness (N = 0..%d by prefix)" % NMAX, {"cpython": p_obs}, {"firmware": f_obs})
+    return None
+
+
+def replay_fixed(ctx, f):
+    """A repaired defect suppresses nothing: its witness is replayed on the real code and a witness that fails again is a
+    property failure (VIOLATION) whose replay is that witness - never a KNOWN-FINDING line."""
+    w = f["witness"]
+    if not w.get("lexical"):
+        ctx.disagree(f"fixed entry {f['id']}: no replay procedure for this witness shape", w.get("src"), None, None)
+        return "not replayed"
+    bad = lexical_witness_failure(w)
+    if bad is None:
+        return "holds"
+    ctx.fail(f"the repaired defect {f['id']} is back ({f.get('fixed', 'fixed')}): {bad[0]}",
+             {"src": w["src"], "input": "", "fixed_entry": f["id"], "commit": f.get("commit")}, bad[1], bad[2], key="main-loop-header")
+    return "FAILS AGAIN: " + bad[0]
 
 
 CLASSES = ["plain", "devices", "vars", "nested", "mix", "mix", "nomain", "postloop", "twoloops", "looplocal_top",
@@ -1341,6 +1416,10 @@ def run(ctx: C.Ctx):
             except IndexError:
                 continue
         return gen_program(rng, "plain")
+
+    # ---- repaired defects first: their witnesses must hold on the real code (a failing one is a VIOLATION)
+    open_findings, fixed_entries = load_findings(ctx)
+    fixed_replayed = {f["id"]: replay_fixed(ctx, f) for f in fixed_entries}
 
     progs = [gen(CLASSES[i % len(CLASSES)]) for i in range(n_prog)]
     # exhaustive over (kind, shape, same/different pins) for a re-bound name of one kind; cross-kind pairs sampled
@@ -1392,19 +1471,12 @@ def run(ctx: C.Ctx):
             prefix_checked += 1
 
     # ---- known findings: replay the listed witnesses on the real code
-    for f in load_findings(ctx):
-        if f.get("kind") == "fixed":
-            continue
+    for f in open_findings:
         w = f["witness"]
         marks = {int(k): v for k, v in w.get("marks", {}).items()}
         if w.get("lexical"):
-            # decided on the real parse() result (never on wall-clock time): the main loop's body is not in loop_body
-            r = C.run_impl("c05_impl.py", {"sources": [w["src"]], "timeout": 20, "emit": False}, timeout=80)[0]
-            body_marks = sorted(i for i, fm in marks.items() if f'"m{i}"' in w["src"].split("while True", 1)[1])
-            if r["ok"]:
-                in_loop = [n for n in canon_real_ir(r["loop"], {"devs": {}, "marks": marks}) if n[0] == "m"]
-                if [n[1] for n in in_loop] != body_marks:
-                    ctx.known(f"{f['id']}: {f['what']}")
+            if lexical_witness_failure(w) is not None:
+                ctx.known(f"{f['id']}: {f['what']}")
             continue
         devs = {"mon": ("Serial", [], "setup")}
         devs.update({k: (v[0], list(v[1]), v[2]) for k, v in w.get("devs", {}).items()})
@@ -1439,15 +1511,20 @@ def run(ctx: C.Ctx):
                          "cpython_exceptions": stats["py_exc"], "prefix_runs": prefix_checked,
                          "motor_pins_checked_for_safe_stop": stats.get("motor_pins_checked", 0),
                          "compared_with_cpython_having_loop_locals": stats.get("inside_with_loop_locals", 0),
+                         "scripts_with_comments": sum(1 for p in progs if p.get("comments", (0, 0)) != (0, 0)),
+                         "main_loop_headers_with_trailing_comment": sum(p.get("comments", (0, 0))[0] for p in progs),
+                         "comment_only_lines": sum(p.get("comments", (0, 0))[1] for p in progs),
+                         "fixed_entries_replayed_first": fixed_replayed,
                          "device_kinds_setup": sorted({d[0] for p in progs for d in p["devs"].values() if d[2] == "setup"}),
                          "device_kinds_loop": sorted({d[0] for p in progs for d in p["devs"].values() if d[2] == "loop"})},
         "exhaustive": False,
-        "guard": "oracle vs CPython: model says transl_ok (no rejected break), one `while True:` and it is the last top-level item (or none), vars_ok (no block below setup depth 0 / inside the loop introduces a name; a name first assigned inside `while True:` is assigned by a top-level statement of the body before anything reads it in that pass); configure-before-use monitors: model says well_placed (devices declared by top-level statements, loop-top declarations only of the hoisted kinds, Buzzer/LCD/SerialMonitor names bound once, a device name bound several times only with one main loop as last item, one mode per pin, and the static resolution check: with emit()'s bindings and dedup keys at each point of the text every statement / poll / tick / handler only touches pins configured by the hoisted block or an earlier in-place configuration). Outside: F-C05-button-rebound-unconfigured, F-C05-ultrasonic-rebound-early-measure. Outside: known findings F-C05-looplocal-reinit (vars_ok), F-C05-postloop-in-setup and F-C05-second-main-loop-appended (one_main_last), F-C05-main-header-comment (lexical). The break guard, housekeeping (hk_ok), no-pass-cut-short and motor safe-stop oracles have no guard.",
+        "guard": "oracle vs CPython: model says transl_ok (no rejected break), one `while True:` and it is the last top-level item (or none), vars_ok (no block below setup depth 0 / inside the loop introduces a name; a name first assigned inside `while True:` is assigned by a top-level statement of the body before anything reads it in that pass); configure-before-use monitors: model says well_placed (devices declared by top-level statements, loop-top declarations only of the hoisted kinds, Buzzer/LCD/SerialMonitor names bound once, a device name bound several times only with one main loop as last item, one mode per pin, and the static resolution check: with emit()'s bindings and dedup keys at each point of the text every statement / poll / tick / handler only touches pins configured by the hoisted block or an earlier in-place configuration). Outside: F-C05-button-rebound-unconfigured, F-C05-ultrasonic-rebound-early-measure. Outside: known findings F-C05-looplocal-reinit (vars_ok), F-C05-postloop-in-setup and F-C05-second-main-loop-appended (one_main_last). Comments are inside the guard since /repo 3df520b (F-C05-main-header-comment is kind=fixed: it excludes nothing, generated scripts carry trailing comments on the main-loop header and comment-only lines at any column, its witness is replayed first on every run). The break guard, housekeeping (hk_ok), no-pass-cut-short and motor safe-stop oracles have no guard.",
         "unmodelled": ["devices declared inside nested blocks (outside the property's quantifier)",
                        "re-binding of a Buzzer / LCD / SerialMonitor name (not of the hoisted set; names kept unique by the guard)",
                        "which COMMAND the parser emits for a method shared by two classes when a name was bound to both (`on`/`off` of a name that was ever an RGBLed are parsed as RGBLed commands and drive the old RGB pins - configured, so not a C05 matter; a behaviour-preservation defect): likewise `read` of a name that was ever a Servo is the Servo getter; generated re-binding scripts use methods only one class has (toggle, set_color, write, set_speed, measure_distance; `read` only when the name is never a Servo)",
                        "a re-bound Servo name keeps driving the pin of its FIRST declaration (one Servo object per name, attached once) and a re-bound Ultrasonic name always measures on the pins of its LAST declaration: modelled as is (the commanded pins are configured, configure-before-use holds on the trace); that the commands reach the wrong pin is a behaviour-preservation defect outside this property's statement",
-                       "lexical recognition of the main-loop header (`while True:  # comment` is not recognised: finding F-C05-main-header-comment, replayed on the real parser only; generated headers are exactly `while True:`)",
+                       "the lexical layer (comments, header recognition) is not in the Gallina model: the model sees the abstract program; half of the generated scripts are rendered with a trailing comment on the `while True:` header (several spacings, comment texts containing quotes, colons and header look-alikes) and comment-only lines at columns 0..16 before / between / after the statements of every block, so the real parser's handling of them is inside both engines (IR placement and traces are compared with the model of the comment-free program, and with CPython, which ignores comments); trailing comments on other lines are not generated",
+                       "the order in which the emitted ButtonPoll stores __redu_button_value_<b> and calls the on_click handler (changed by /repo 97f26e6) is not observable in this model's event vocabulary (is_pressed() reads a cached sample and is no pin access; generated handlers only print markers): that clause is C15's",
                        "the value a DCMotor is stopped with / a Servo is first written with (the model has 'a write'; the harness checks on the real trace that the first write on every motor pin is a 0-write inside setup())",
                        "names promoted out of a block inside setup() below depth 0 are re-initialised at the head of the block on every execution of it (modelled; outside vars_ok; a C01 matter, not a clause of C05)",
                        "top-level `while <cond>:` and nested `while` loops, `try`, `elif/else`, functions other than marker-only button handlers",
@@ -1499,6 +1576,10 @@ def replay(data):
     inp = case.get("input", "") if isinstance(case, dict) else ""
     t = fw.transpile_many([src])[0]
     print("parse()/emit():", "accepted" if t["ok"] else f"{t['exc']}: {t.get('msg', '')[:200]}")
+    if key == "main-loop-header":
+        bad = lexical_witness_failure({"src": src, "marks": {str(i): "ser" for i in map(int, re.findall(r'"m(\d+)"', src))}})
+        print("REPRODUCED [main-loop-header]: %s\n   expected: %s\n   observed: %s" % bad if bad else "replay: the witness holds now")
+        return 1 if bad else 0
     if key == "break-accepted":
         print("REPRODUCED [break-accepted]" if t["ok"] else "replay: the script is rejected now")
         return 1 if t["ok"] else 0
